@@ -594,6 +594,7 @@ def specs(tier):
     from props import c09h
 
     out.extend(c09h.specs(tier, "c10"))  # with the REAL ExceptionsEmitter: a non-force run never touches the shared registry
+    out.append(("props.c12", "mk_copy", (2, 2)))  # lemma for the stubbed CoreEmitter: the real one writes nothing outside the core directory
     for olen, clen in ([(1, 0), (1, 1), (3, 0), (1, 2), (3, 1)] if q else [(1, 0), (1, 1), (2, 0), (3, 0), (1, 2), (2, 1), (2, 2), (3, 1), (1, 3), (3, 3), (3, 2), (2, 3)]):
         out.append((MOD, "mk_history", (olen, clen)))
     return out
@@ -624,6 +625,10 @@ def replay(path):
         why = ob.verdict(inp, ob.run_real(inp), ob.which)
         print("replay %s inputs=%r -> %s" % (v["obligation"], inp, "holds" if why is None else why))
         return 0 if why is None else 1
+    if v["obligation"].startswith("copy_step"):
+        from props import c12
+
+        return c12.replay(path)
     if v["obligation"].startswith("containment"):
         ob = Containment(int(v["obligation"].split("=")[1]))
         r = ob.run_real(v["inputs"])
